@@ -119,6 +119,12 @@ def family(chk, d, tier, seed, hosts, typed_every=None, host_every=9):
     recs = programs(chk, d, parts, seed if tier != "quick" else 0, parallel=4 if tier == "quick" else 12)
     recs.sort(key=lambda r: json.dumps(r, sort_keys=True))
     ins = []
+    seen = set()
+    for r in list(recs):        # two visibility modes may give the same program
+        k = json.dumps([r["defs"], r["use"], r["scope"], r["vis"], r["blk"]], sort_keys=True)
+        if k in seen:
+            recs.remove(r)
+        seen.add(k)
     for i, r in enumerate(recs):
         name = [r["h"], len(r["defs"]), json.dumps(r["defs"], sort_keys=True), json.dumps(r["use"], sort_keys=True),
                 r["scope"], r["vis"]]
